@@ -218,3 +218,9 @@ package operationparser
 //@   results r, err
 //@   ensures err == nil ==> r != nil && r.Operation == operation.TypeCreate
 //@   ensures err == nil ==> b64ok(initialState) && (exists v any :: jcsOK(v) && initialState == b64(jcs(v)))
+
+// ---- C10: ParseDID answers arbitrary text with an error, never a panic (all slice bounds follow from the contracts
+// of strings.Index / strings.LastIndex) ----
+//@ func (*Parser).ParseDID
+//@   results did, req, err
+//@   ensures err == nil && req != nil ==> (exists v any :: jcsOK(v) && req == jcs(v))
